@@ -186,6 +186,60 @@ theorem count_set_true_fresh (l : List Bool) (i : Nat) (hf : l.getD i false = fa
       simp only [List.set_cons_succ, List.count_cons]
       rw [ih i hf (by simpa using hi)]; omega
 
+/-- a candidate lies less than one pixel (per axis) from the corner of the cell it is stored in -/
+theorem frac_sq_lt (q den : Int) (hden : 0 < den) (hq : 0 ≤ q) :
+    (q - (((q / den).toNat : Nat) : Int) * den) * (q - (((q / den).toNat : Nat) : Int) * den) < den * den := by
+  have h0 : 0 ≤ q / den := Int.ediv_nonneg hq (by omega)
+  have e : (((q / den).toNat : Nat) : Int) = q / den := by omega
+  rw [e]
+  have hm : q - q / den * den = q % den := by
+    have := Int.emod_add_ediv_mul q den; omega
+  rw [hm]
+  have h1 := Int.emod_nonneg q (by omega : den ≠ 0)
+  have h2 := Int.emod_lt_of_pos q hden
+  have s1 : q % den * (q % den) ≤ q % den * den := Int.mul_le_mul_of_nonneg_left (Int.le_of_lt h2) h1
+  have s2 : q % den * den < den * den := Int.mul_lt_mul_of_pos_right h2 hden
+  omega
+
+/-- **radius ≥ √2 pixels is safe**: then a candidate whose cell is already sampled is always rejected (it is
+closer than one radius to that cell), so every acceptance samples a new cell.  One pixel — the clip of the code —
+is not enough (`C04.poisson_accepts_occupied_cell`), less than one pixel even less so. -/
+theorem poissonAccept_cell_free (nx ny : Nat) (den r : Int) (hden : 0 < den) (hr : 2 * (den * den) ≤ r * r)
+    (mask : List Bool) (qx qy : Int) (h : poissonAccept nx ny den r mask qx qy = true) :
+    mask.getD (poissonCell ny den qx qy) false = false := by
+  unfold poissonAccept at h
+  simp only [Bool.and_eq_true, decide_eq_true_eq, List.all_eq_true, List.mem_range, Bool.not_eq_true',
+    Bool.and_eq_false_iff, decide_eq_false_iff_not] at h
+  obtain ⟨⟨hx0, hx1, hy0, hy1⟩, hall⟩ := h
+  have hcx : (qx / den).toNat < nx := by
+    have h1 : qx / den < nx := Int.ediv_lt_of_lt_mul hden hx1
+    have h0 : 0 ≤ qx / den := Int.ediv_nonneg hx0 (by omega)
+    omega
+  have hcy : (qy / den).toNat < ny := by
+    have h1 : qy / den < ny := Int.ediv_lt_of_lt_mul hden hy1
+    have h0 : 0 ≤ qy / den := Int.ediv_nonneg hy0 (by omega)
+    omega
+  have hk : poissonCell ny den qx qy < nx * ny := by
+    unfold poissonCell
+    have : ((qx / den).toNat + 1) * ny ≤ nx * ny := Nat.mul_le_mul_right ny hcx
+    rw [Nat.succ_mul] at this
+    omega
+  rcases hall _ hk with hfree | hfar
+  · exact hfree
+  · exfalso
+    apply hfar
+    have hny : 0 < ny := by omega
+    have e1 : (poissonCell ny den qx qy) / ny = (qx / den).toNat := by
+      unfold poissonCell
+      rw [Nat.mul_comm, Nat.mul_add_div hny, Nat.div_eq_of_lt hcy, Nat.add_zero]
+    have e2 : (poissonCell ny den qx qy) % ny = (qy / den).toNat := by
+      unfold poissonCell
+      rw [Nat.mul_comm, Nat.mul_add_mod, Nat.mod_eq_of_lt hcy]
+    rw [e1, e2]
+    have fx := frac_sq_lt qx den hden hx0
+    have fy := frac_sq_lt qy den hden hy0
+    omega
+
 theorem count_true_le_length (l : List Bool) : l.count true ≤ l.length := List.count_le_length
 
 /-- with the guard (a candidate whose cell is already sampled is refused) every accepted candidate marks a
